@@ -36,6 +36,44 @@ type revision struct {
 	etag  string // etag value served for the index (unquoted)
 	b32   string // base32 of the etag = the cache's index file stem
 	index []byte
+	// hdrs: ETag header text of the index per etag style (see etagStyles); etag/b32 are those of the current style
+	hdrs map[string]string
+}
+
+// etagStyles: the shapes of ETag an origin may give its index revisions. "default" = 16 hex digits of the
+// content hash; "long-tail" = an object-store style name of ~140 bytes in which only the generation at the END
+// differs between revisions; "expanding" = a weak validator with characters that base32 has to expand
+// (slash, plus, equals, blank, non-ASCII), differing in the middle; "huge" = 300+ bytes (finding C19-F8: its base32
+// form does not fit into a file name).
+var etagStyles = []string{"default", "long-tail", "expanding", "huge"}
+
+func etagHeader(style string, rev int, index []byte) string {
+	switch style {
+	case "long-tail":
+		return `"` + "storage.example.invalid/bucket-with-a-long-name-0123456789abcdef0123456789abcdef/packages/os/x86_64/APKINDEX.tar.gz#generation-" + fmt.Sprintf("%019d", 1700000000000000000+rev) + `"`
+	case "huge":
+		return `"` + strings.Repeat("0123456789", 30) + fmt.Sprintf("#%d", rev) + `"`
+	case "expanding":
+		return `W/"` + fmt.Sprintf("r%d", rev) + `/é+ =?&` + etagOf(index)[:4] + `"`
+	}
+	return `"` + etagOf(index) + `"`
+}
+
+// stemOf: the cache's file stem for an ETag header: quotes trimmed at both ends, base32 (what etagFromResponse
+// does, computed here independently of it)
+func stemOf(hdr string) (etag, b32 string) {
+	e := strings.Trim(hdr, `"`)
+	return e, base32.StdEncoding.EncodeToString([]byte(e))
+}
+
+// setStyle switches the ETag shape the origin uses for its index revisions
+func (w *world) setStyle(style string) {
+	w.mu.Lock()
+	defer w.mu.Unlock()
+	w.style = style
+	for _, r := range w.revs {
+		r.etag, r.b32 = stemOf(r.hdrs[style])
+	}
 }
 
 type stall struct {
@@ -59,6 +97,13 @@ type world struct {
 	flip   int               // >=0: switch to this revision right after the next HEAD of the index has been answered
 	stalls map[string]*stall // URL path suffix -> stall
 	faults map[string]*fault // URL path suffix -> transient fault (the next n matching GETs)
+	style  string            // current ETag style of the index revisions
+	// second repository (/repo2/ serves revision repo2rev), one ETag value for every index of every repository
+	// (sameEtag != ""), and a barrier that makes `overlap` index GETs overlap (each waits for the others, 1.5 s at most)
+	repo2rev int
+	sameEtag string
+	overlap  int
+	arrived  int
 	// discovery: the origin implements chainguard-style key discovery (/repo/apk-configuration -> JWKS)
 	discovery bool
 	reqs      []string
@@ -148,7 +193,7 @@ func newWorld(nrev int) (*world, error) {
 	if err != nil {
 		return nil, err
 	}
-	w := &world{root: root, stalls: map[string]*stall{}, faults: map[string]*fault{}, flip: -1}
+	w := &world{root: root, stalls: map[string]*stall{}, faults: map[string]*fault{}, flip: -1, style: "default", repo2rev: -1}
 	w.self, err = os.Executable()
 	if err != nil {
 		return nil, err
@@ -177,7 +222,11 @@ func newWorld(nrev int) (*world, error) {
 			return nil, err
 		}
 		e := etagOf(ix)
-		w.revs = append(w.revs, &revision{dir: d, repo: rp, etag: e, b32: base32.StdEncoding.EncodeToString([]byte(e)), index: ix})
+		rv := &revision{dir: d, repo: rp, etag: e, b32: base32.StdEncoding.EncodeToString([]byte(e)), index: ix, hdrs: map[string]string{}}
+		for _, st := range etagStyles {
+			rv.hdrs[st] = etagHeader(st, r, ix)
+		}
+		w.revs = append(w.revs, rv)
 	}
 	w.srv = httptest.NewUnstartedServer(http.HandlerFunc(w.serve))
 	l, err := net.Listen("tcp", "127.0.0.1:0")
@@ -247,6 +296,23 @@ func (w *world) serve(rw http.ResponseWriter, req *http.Request) {
 		}
 	}
 	disc := w.discovery
+	isIndex := strings.HasSuffix(req.URL.Path, "/APKINDEX.tar.gz")
+	prefix := "/repo/"
+	if w.repo2rev >= 0 && strings.HasPrefix(req.URL.Path, "/repo2/") {
+		rev, prefix = w.revs[w.repo2rev], "/repo2/"
+	}
+	etagHdr := ""
+	if isIndex {
+		etagHdr = rev.hdrs[w.style]
+		if w.sameEtag != "" {
+			etagHdr = w.sameEtag
+		}
+	}
+	wait := false
+	if isIndex && req.Method == http.MethodGet && w.overlap > 0 {
+		w.arrived++
+		wait = true
+	}
 	if req.Method == http.MethodGet && ft == nil {
 		for suf, s := range w.stalls {
 			if strings.HasSuffix(req.URL.Path, suf) {
@@ -271,17 +337,32 @@ func (w *world) serve(rw http.ResponseWriter, req *http.Request) {
 		rw.Write(w.jwks())
 		return
 	}
-	if !strings.HasPrefix(req.URL.Path, "/repo/") {
+	if wait {
+		// make the index downloads of one build overlap: nobody is answered before all have arrived
+		for i := 0; i < 750; i++ {
+			w.mu.Lock()
+			ok := w.arrived >= w.overlap
+			w.mu.Unlock()
+			if ok {
+				break
+			}
+			time.Sleep(2 * time.Millisecond)
+		}
+	}
+	if !strings.HasPrefix(req.URL.Path, prefix) {
 		http.NotFound(rw, req)
 		return
 	}
-	p := filepath.Join(rev.dir, filepath.FromSlash(filepath.Clean("/"+strings.TrimPrefix(req.URL.Path, "/repo/"))))
+	p := filepath.Join(rev.dir, filepath.FromSlash(filepath.Clean("/"+strings.TrimPrefix(req.URL.Path, prefix))))
 	b, err := os.ReadFile(p)
 	if err != nil {
 		http.NotFound(rw, req)
 		return
 	}
-	rw.Header().Set("ETag", `"`+etagOf(b)+`"`)
+	if etagHdr == "" {
+		etagHdr = `"` + etagOf(b) + `"`
+	}
+	rw.Header()["ETag"] = []string{etagHdr}
 	if ft != nil {
 		// the body is cut: Content-Length promises everything, the connection dies after ft.cut bytes
 		rw.Header().Set("Content-Length", fmt.Sprint(len(b)))
@@ -354,6 +435,7 @@ type runSpec struct {
 	Gate    string   // with N > 1: before build i (1-based, i >= 2) create <Gate>.<i>.reached and wait for <Gate>.<i>
 	NoEtag  bool     // apk.NewCache(false): HEAD responses are not memoised in the process
 	Keys    []string // keyring entries (paths or URLs) instead of the repository key file
+	Repos   []string // repositories instead of the world's one
 }
 
 type runOut struct {
@@ -376,7 +458,11 @@ func (w *world) command(s runSpec) (*exec.Cmd, string) {
 	if len(s.Keys) > 0 {
 		keyArg = strings.Join(s.Keys, ",")
 	}
-	args := []string{"-worker", "-repo", w.repoURL(), "-key", keyArg, "-cache", s.Cache,
+	repoArg := w.repoURL()
+	if len(s.Repos) > 0 {
+		repoArg = strings.Join(s.Repos, ",")
+	}
+	args := []string{"-worker", "-repo", repoArg, "-key", keyArg, "-cache", s.Cache,
 		"-pkgs", strings.Join(s.Pkgs, ","), "-result", resf, "-tmp", tmp}
 	if s.Offline {
 		args = append(args, "-offline")
